@@ -218,7 +218,8 @@ def month_forms(repo, rep):
             else:
                 names = [a.arg for a in fn.args.args if a.arg != "self"]
                 at.update(dict(zip(names, (Y, mv, D))))
-            outs = outcomes(repo, MOD, q, arg_terms=at)
+            # only refusals that look at the day are of interest here (refusals of hours, minutes, ... cannot fire: those arguments are absent)
+            outs = [o for o in outcomes(repo, MOD, q, arg_terms=at) if o.kind == "raise" and any(x == D for x in T.walk(o.cond))]
             for y in years:
                 leap = (y % 4 == 0) if y < 1583 else calendar.isleap(y)
                 mlen = calendar.mdays[m] + (1 if (m == 2 and leap) else 0)
